@@ -46,6 +46,23 @@ def run(ctx):
         ctx.case(("po-reject", id(f)), True); ctx.count("non-inverse-pairs")
         if r[0] != "exc":
             ctx.violation("oracle", {"call": "potential_outcomes", "issue": "a pair that is not inverse was accepted", "returned": np.array(r[1]).tolist()}, site="potential_outcomes")
+    class Add:
+        def __init__(self, d): self.d = d
+        def __call__(self, u): return u + self.d
+    for _ in range(ctx.n(40, 400)):
+        d = ctx.rng.choice([1, 2, -3, 0.5])
+        f, finv = Add(d), Add(-d)
+        a = guarded(utils.potential_outcomes, np.array([1.0, 2.0]), np.array([3.0]), f, finv)
+        f.d = d + ctx.rng.choice([1, 2.5])                 # the same objects, no longer inverse to each other
+        b = guarded(utils.potential_outcomes, np.array([1.0, 2.0]), np.array([3.0]), f, finv)
+        c = guarded(core.two_sample_shift, np.array([1.0, 2.0]), np.array([3.0, 5.0]), reps=3, seed=1, shift=(f, finv))
+        # throw-away lambdas: a valid pair, dropped, then an invalid pair (CPython tends to reuse the addresses)
+        v = guarded(utils.potential_outcomes, np.array([1.0]), np.array([2.0]), (lambda u: u + d), (lambda u: u - d))
+        w = guarded(utils.potential_outcomes, np.array([1.0]), np.array([2.0]), (lambda u: u + d), (lambda u: 3 * u))
+        ctx.case(("stale-inverse-check", d, f.d), True); ctx.count("inverse-check-sequences")
+        if a[0] != "ok" or v[0] != "ok" or b[0] != "exc" or c[0] != "exc" or w[0] != "exc":
+            ctx.violation("oracle", {"call": "potential_outcomes / two_sample_shift", "issue": "a pair that is not inverse is accepted when the same callable objects (or recycled ones) passed the check earlier",
+                                     "valid_first": a[0], "same_objects_changed": b[0], "via_two_sample_shift": c[0], "fresh_invalid_lambdas": w[0]}, site="potential_outcomes")
     # ---- two_sample_shift: recorded arrays and model
     fn = rt.FUNCS["two_sample_shift"]
     o2, m2 = rt.run_recorded(ctx, ["two_sample_shift"], ctx.n(200, 3000))
